@@ -198,7 +198,7 @@ impl Prop for C01 {
         // strip applied inside parse_patch; the history runner parses with strip 0 - names are not used there
         let texts = vec![case.patch.0.clone()];
         // forward on A
-        let fwd = match inproc::run_history(a_bytes.as_deref(), None, &texts, &[Step { patch: 0, reverse: false, fuzz: 0 }], false) {
+        let fwd = match inproc::run_history_strip(a_bytes.as_deref(), None, &texts, &[Step { patch: 0, reverse: false, fuzz: 0 }], false, case.strip) {
             Ok(Ok(h)) => h,
             Ok(Err(p)) => return Verdict::Fail(format!("forward: {}", p)),
             Err(e) => return Verdict::Fail(format!("harness: {}", e)),
@@ -219,7 +219,7 @@ impl Prop for C01 {
             return Verdict::Fail(format!("forward: deleted flag {} but B {}", st.after.deleted, if case.b.is_none() { "absent" } else { "present" }));
         }
         // reverse on B
-        let rev = match inproc::run_history(b_bytes.as_deref(), None, &texts, &[Step { patch: 0, reverse: true, fuzz: 0 }], false) {
+        let rev = match inproc::run_history_strip(b_bytes.as_deref(), None, &texts, &[Step { patch: 0, reverse: true, fuzz: 0 }], false, case.strip) {
             Ok(Ok(h)) => h,
             Ok(Err(p)) => return Verdict::Fail(format!("reverse: {}", p)),
             Err(e) => return Verdict::Fail(format!("harness: {}", e)),
@@ -252,7 +252,7 @@ impl Prop for C01 {
                 // with -p1 sometimes rely on the default strip level
                 let strip_opt = if case.strip == 1 && case.patch.len() % 2 == 0 { String::new() } else { format!(" -p{}", case.strip) };
                 let series = format!("p.patch{}{}\n", strip_opt, if reverse { " -R" } else { "" });
-                let spec = WsSpec { tree: tree.clone(), patches: vec![("p.patch".into(), case.patch.clone())], series: B::new(series), applied: None, dirs: vec![] };
+                let spec = WsSpec { tree: tree.clone(), patches: vec![("p.patch".into(), case.patch.clone())], series: B::new(series), applied: None, dirs: vec![], symlinks: vec![] };
                 let root = cx.env.fresh_dir("c01-");
                 spec.materialise(&root);
                 let mut args = ws::base_args(threads);
